@@ -10,6 +10,8 @@
 -/
 import Hw.Topo.WFLemmas0
 import Hw.Topo.InsertLemmas
+import Hw.Topo.SetStagePre
+import Hw.Topo.SetStageShape
 namespace Hw.Props.C01
 open Hw.Topo
 
@@ -59,5 +61,86 @@ example : (match insAll (.node { gp := 0, type := tMACHINE, key := 0xff } [])
       [{ gp := 1, type := tPACKAGE, key := 0x0f }, { gp := 2, type := tPU, key := 0x1 }, { gp := 3, type := tCORE, key := 0x18 }] with
     | some t' => rows 0 t' | none => []) = [(0, 0, [], []), (1, 0, [], []), (2, 1, [], [])] := by decide +kernel
 end
+
+/-! ### the set pipeline of `hwloc_discover` ("Fixup root sets", `propagate_nodeset`, `fixup_sets`, `remove_unused_sets`; model
+`Hw.Topo.SetStage.stage`, tied to the code by the `set-stage` engine, which runs it on the tree that the library dumps before the
+stage and compares with the tree dumped after it)
+
+For ANY tree satisfying the decidable precondition `PreSets` (evaluated by the engine on every real input), at EVERY node of the
+output (`AllN P t` = `P o kids mem` holds at every node `o` with normal children `kids` and memory children `mem`): -/
+section SetStage
+open Hw.Topo.SetStage
+
+/-- the precondition is decidable: the executable check the driver runs is exactly `PreSets` -/
+theorem C01_setstage_pre_decidable (i : In) : preSets i = true ↔ PreSets i := preSets_iff i
+
+/-- WF clauses "sets-presence" and "set-in-complete": after the stage every object has its four sets, cpuset ⊆ complete_cpuset and
+nodeset ⊆ complete_nodeset -/
+theorem C01_setstage_set_in_complete (i : In) (h : PreSets i) :
+    AllN (fun o _ _ => ∃ cc cn, o.ccpuset = some cc ∧ o.cnodeset = some cn ∧ Sub o.cpuset cc ∧ Sub o.nodeset cn) (stage i).root :=
+  AllN.imp (fun _ _ _ hp => hp.1) _ (stage_post i h)
+
+/-- WF clause "set-in-parent": each of the four sets of every normal or memory child lies inside the parent's -/
+theorem C01_setstage_set_in_parent (i : In) (h : PreSets i) :
+    AllN (fun o kids mem => ∀ c ∈ kids ++ mem, Sub c.o.cpuset o.cpuset ∧ Sub (c.o.ccpuset.getD 0) (o.ccpuset.getD 0) ∧
+                                               Sub c.o.nodeset o.nodeset ∧ Sub (c.o.cnodeset.getD 0) (o.cnodeset.getD 0)) (stage i).root :=
+  AllN.imp (fun _ _ _ hp c hc => by
+    rcases List.mem_append.1 hc with hc | hc
+    · exact hp.2.1 c hc
+    · exact (hp.2.2.1 c hc).1) _ (stage_post i h)
+
+/-- WF clause "memory-child-shares-cpuset": memory children carry their parent's cpuset and complete_cpuset -/
+theorem C01_setstage_memory_child_shares_cpuset (i : In) (h : PreSets i) :
+    AllN (fun o _ mem => ∀ m ∈ mem, m.o.cpuset = o.cpuset ∧ m.o.ccpuset = o.ccpuset) (stage i).root :=
+  AllN.imp (fun _ _ _ hp m hm => (hp.2.2.1 m hm).2) _ (stage_post i h)
+
+/-- the laminar structure built by the insertion routine survives: the cpusets of the normal children of every object stay pairwise
+disjoint (and, by `C01_setstage_set_in_parent`, inside the parent's) -/
+theorem C01_setstage_siblings_disjoint (i : In) (h : PreSets i) :
+    AllN (fun _ kids _ => (kids.map (·.o.cpuset)).Pairwise Dj) (stage i).root :=
+  AllN.imp (fun _ _ _ hp => hp.2.2.2) _ (stage_post i h)
+
+/-- WF clause "nodeset-decomposition": the nodeset of every normal object is the union of what it inherits from the memory children of
+its ancestors (`inh`, empty at the root), of its own memory children and of what is attached below its normal children, and these parts
+are pairwise disjoint (`Decomp`, Hw/Topo/SetStageDecomp.lean, spells out the five conditions) -/
+theorem C01_setstage_nodeset_decomposition (i : In) (h : PreSets i) : Decomp 0 (stage i).root := stage_decomp i h
+
+/-- WF clause "allowed-sets": the allowed sets lie inside the root sets, and are equal to them when INCLUDE_DISALLOWED is not set -/
+theorem C01_setstage_allowed_sets (i : In) (h : PreSets i) :
+    Sub (stage i).allowedC (stage i).root.o.cpuset ∧ Sub (stage i).allowedN (stage i).root.o.nodeset ∧
+    (i.includeDisallowed = false → (stage i).root.o.cpuset = (stage i).allowedC ∧ (stage i).root.o.nodeset = (stage i).allowedN) :=
+  stage_allowed i h.covered
+
+/-- WF clauses "pu-allowed" and "numa-allowed" (for every object, not only PUs and NUMA nodes, and without any precondition): when
+INCLUDE_DISALLOWED is not set, every cpuset lies inside the allowed cpuset and every nodeset inside the allowed nodeset -/
+theorem C01_setstage_within_allowed (i : In) (hf : i.includeDisallowed = false) :
+    AllN (fun o _ _ => Sub o.cpuset (stage i).allowedC ∧ Sub o.nodeset (stage i).allowedN) (stage i).root :=
+  stage_within_allowed i hf
+
+/-- the stage loses no object and invents none (in this source tree `remove_unused_sets` only intersects sets; objects that become empty
+are unlinked later by `remove_empty`): the objects of the output — (gp_index of the parent, in a memory list, gp_index, type, os_index),
+depth-first — are a permutation of the input's; only the order of normal children may change.  No precondition. -/
+theorem C01_setstage_no_object_lost (i : In) : (ids (-1) false (stage i).root).Perm (ids (-1) false i.root) := stage_ids_perm i
+
+/-! non-vacuity: a machine with an offline processor (bit 6 only in the complete cpuset), two packages each with a NUMA node, the
+second package wider than the root cpuset (processors 6 and 7), processor 3 not allowed.  The precondition holds; the stage clips the
+second package to the root, gives every object its complete sets and nodesets, hands the parent's cpusets to the NUMA nodes, and
+empties the disallowed PU.  Rows: [gp_index, parent (0 for the root), in the memory list, cpuset, complete_cpuset, nodeset, complete_nodeset]. -/
+def exPU (gp os : Nat) : ST := .node ⟨gp, tPU, os, 1 <<< os, none, 0, none⟩ [] []
+def exNUMA (gp os cpuset : Nat) : ST := .node ⟨gp, tNUMA, os, cpuset, none, 1 <<< os, some (1 <<< os)⟩ [] []
+def exIn : In := ⟨false, ⟨false, 0x37⟩, ⟨true, 0⟩,
+  .node ⟨1, tMACHINE, 0, 0x3f, some 0x7f, 3, some 7⟩
+    [ .node ⟨2, tPACKAGE, 0, 0x07, none, 0, none⟩ [exPU 3 0, exPU 4 1, exPU 5 2] [exNUMA 10 0 0x07],
+      .node ⟨6, tPACKAGE, 1, 0xf8, none, 0, none⟩ [exPU 7 3, exPU 8 4, exPU 9 5] [exNUMA 11 1 0xf8] ] []⟩
+
+example : PreSets exIn := (preSets_iff exIn).1 (by decide +kernel)
+example : (stage exIn).allowedC = 0x37 ∧ (stage exIn).allowedN = 3 ∧
+    (rows (-1) false (stage exIn).root).map
+      (fun r => [r.2.2.gp, r.1.toNat, r.2.1.toNat, r.2.2.cpuset, r.2.2.ccpuset.getD 0, r.2.2.nodeset, r.2.2.cnodeset.getD 0]) =
+    [[1, 0, 0, 0x37, 0x7f, 3, 7],
+     [2, 1, 0, 7, 7, 1, 1], [3, 2, 0, 1, 1, 1, 1], [4, 2, 0, 2, 2, 1, 1], [5, 2, 0, 4, 4, 1, 1], [10, 2, 1, 7, 7, 1, 1],
+     [6, 1, 0, 0x30, 0x38, 2, 2], [7, 6, 0, 0, 8, 2, 2], [8, 6, 0, 0x10, 0x10, 2, 2], [9, 6, 0, 0x20, 0x20, 2, 2],
+     [11, 6, 1, 0x30, 0x38, 2, 2]] := by decide +kernel
+end SetStage
 
 end Hw.Props.C01
